@@ -79,12 +79,12 @@ LapsedNow(S, t) == {<<x, S.tasks[x].counter>> : x \in ExpirableTasks(S, TaskBusy
 
 Bg(S2) ==
   /\ db' = S2 /\ steps' = steps /\ now' = now
-  /\ lapsed' = lapsed \cup LapsedNow(S2, now)
+  /\ lapsed' = NextLapsed(lapsed, db, S2, now)
 
 Request(k, a) ==
   /\ steps < MaxSteps /\ steps' = steps + 1 /\ now' = now
   /\ db' = Op(k, db, a, now).db
-  /\ lapsed' = lapsed \cup LapsedNow(db', now)
+  /\ lapsed' = NextLapsed(lapsed, db, db', now)
 
 BgTimeout(id) == Overdue(db, id, now) /\ Bg(TimeoutP(db, id, now))
 BgFire(s)     == CanFire(db, s, now) /\ Bg(Fire(db, s, now))
